@@ -402,7 +402,7 @@ PURE_EXT = {"numpy.exp": "exp", "numpy.log": "log", "numpy.floor": "floor", "num
             "math.isfinite": "isfinite", "numpy.full": "full", "numpy.zeros": "zeros", "numpy.ones": "ones",
             "numpy.empty": "empty", "numpy.float32": "float32", "numpy.float16": "float16",
             "numpy.square": "square", "math.fabs": "abs", "numpy.log1p": "log1p", "math.log1p": "log1p",
-            "itertools.repeat": "repeat", "numpy.ceil": "ceil", "math.ceil": "ceil", "numpy.isclose": "isclose", "math.isclose": "isclose",
+            "itertools.repeat": "repeat", "itertools.count": "count", "numpy.ceil": "ceil", "math.ceil": "ceil", "numpy.isclose": "isclose", "math.isclose": "isclose",
             "math.prod": "prod", "numpy.prod": "prod", "math.trunc": "trunc"}
 OPERATOR_EXT = {"operator.add": "+", "operator.sub": "-", "operator.mul": "*", "operator.truediv": "/",
                 "operator.pow": "**", "operator.mod": "%", "operator.floordiv": "//"}
@@ -661,8 +661,14 @@ def norm_comp(c):
                 if not _uses_whole(el, (key, val, conds), m):
                     c = ("comp", kind, lid, a) + subst((key, val, conds), m)
                     continue
+            if b[0] == "fn" and b[1] == "count":
+                m = {("tget", el, 0): el}
+                if not _uses_whole(el, (key, val, conds), m):      # zip(A, count()) with the counter unused
+                    c = ("comp", kind, lid, a) + subst((key, val, conds), m)
+                    continue
             if b[0] == "comp" and b[1] in ("gen", "list") and b[4] is None and not b[6] and b[5][0] != "flat":
-                inner = subst(b[5], {("elem", b[2]): ("tget", el, 1)})
+                # what the inner generator evaluates per element is now evaluated per element of this comprehension
+                inner = relabel_loop(subst(b[5], {("elem", b[2]): ("tget", el, 1)}), b[2], lid)
                 m = {("tget", el, 1): inner}
                 if not _uses_whole(el, (key, val, conds), {("tget", el, 0): None, ("tget", el, 1): None}):
                     c = ("comp", kind, lid, ("fn", "zip", (a, b[3]))) + subst((key, val, conds), m)
@@ -672,6 +678,18 @@ def norm_comp(c):
                 continue
         return c
     return c
+
+
+def relabel_loop(t, old, new):
+    """Rename a loop id in creation sites and draw nests (a value computed per iteration of `old` that is
+    now computed per iteration of `new`)."""
+    if isinstance(t, tuple):
+        if t and t[0] == "L" and all(isinstance(x, int) for x in t[1:]):
+            return tuple(new if x == old else x for x in t)
+        if t and t[0] == "draw" and len(t) == 6:
+            return t[:1] + tuple(relabel_loop(x, old, new) for x in t[1:5]) + (tuple(new if x == old else x for x in t[5]),)
+        return tuple(relabel_loop(x, old, new) for x in t)
+    return t
 
 
 def _uses_whole(el, terms, parts):
@@ -1062,6 +1080,8 @@ class Summariser:
         if not term and ret is not None:
             s.ret = ret
         s.fields, s.env = self.exit_fields(term), self.env
+        for k in [k for k in s.fields if k.startswith("%")]:
+            del s.fields[k]                 # state of local collaborator objects
         for k, v in list(s.fields.items()):
             names = record_names(v)
             if names:
@@ -1271,6 +1291,16 @@ class Summariser:
     def assign(self, target, val, events, st, aug=None):
         if isinstance(target, ast.Name):
             self.env[target.id] = val
+            if aug is None and val[0] == "new" and self._private_class(val) is not None:
+                # a local collaborator object of a private class: its attributes are tracked like fields
+                prefix = f"%{target.id}:{st.lineno}:{len(self.stack)}"
+                if self._adopt(prefix, val, events, st):
+                    self.env[target.id] = ("owned", prefix + ".", val[2], val)
+        elif isinstance(target, ast.Attribute) and isinstance(target.value, ast.Name) and \
+                self.env.get(target.value.id, ("?",))[0] == "owned":
+            attr = self.env[target.value.id][1] + target.attr
+            self.fields[attr] = val
+            events.append(Store(attr, val, st.lineno, aug))
         elif isinstance(target, ast.Attribute) and self.is_self(target.value):
             attr = self.fname(target.attr)
             names = record_names(val)
@@ -1319,22 +1349,39 @@ class Summariser:
             elif isinstance(n, ast.Attribute) and isinstance(n.ctx, ast.Store) and isinstance(n.value, ast.Attribute) and \
                     self.is_self(n.value.value) and self._owned_class(self.fname(n.value.attr)) is not None:
                 fields.add(self.fname(n.value.attr) + "." + n.attr)
+            elif isinstance(n, ast.Attribute) and isinstance(n.ctx, ast.Store) and isinstance(n.value, ast.Name) and \
+                    self.env.get(n.value.id, ("?",))[0] == "owned":
+                fields.add(self.env[n.value.id][1] + n.attr)
         return names, fields
 
     def called_self_methods(self, body, seen=None):
         """Fields stored by helper methods reachable from a loop body (for loop-carried fields)."""
         seen = seen if seen is not None else set()
         fields = set()
-        if self.cls is None:
+        if self.cls is None and not any(v[0] == "owned" for v in self.env.values() if isinstance(v, tuple) and v):
             return fields
         for n in ast.walk(ast.Module(body=body, type_ignores=[])):
-            if isinstance(n, ast.Call) and isinstance(n.func, ast.Attribute) and self.is_self(n.func.value):
+            if isinstance(n, ast.Call) and isinstance(n.func, ast.Attribute) and self.is_self(n.func.value) and \
+                    self.cls is not None:
                 c, m = self.prog.find_method(self.cls, n.func.attr)
                 if m is not None and m not in seen:
                     seen.add(m)
                     sub = Summariser(self.prog, c.module, self.cls, m, owner=c)
                     sub.field_prefix = self.field_prefix
                     sub._owner_key = getattr(self, "_owner_key", None)
+                    _, f2 = sub.assigned_names(m.body)
+                    fields |= f2
+                    fields |= sub.called_self_methods(m.body, seen)
+            elif isinstance(n, ast.Call) and isinstance(n.func, ast.Attribute) and isinstance(n.func.value, ast.Name) and \
+                    self.env.get(n.func.value.id, ("?",))[0] == "owned":
+                o = self.env[n.func.value.id]
+                K = self._private_class(o[3])
+                c, m = self.prog.find_method(K, n.func.attr)
+                if m is not None and m not in seen:
+                    seen.add(m)
+                    sub = Summariser(self.prog, c.module, K, m, owner=c)
+                    sub.field_prefix = o[1]
+                    sub._owner_key = self._root_key()
                     _, f2 = sub.assigned_names(m.body)
                     fields |= f2
                     fields |= sub.called_self_methods(m.body, seen)
@@ -1372,38 +1419,76 @@ class Summariser:
         names, fields = self.assigned_names(st.body)
         fields |= self.called_self_methods(st.body)
         env0, f0 = dict(self.env), dict(self.fields)
+        exits0 = list(self.exits)
         carried_n = {n for n in names if n in env0}
-        for n in carried_n:
-            self.env[n] = ("mu", lid, n)
-        for f in fields:
-            self.fields[f] = ("mu", lid, "self." + f)
-        if is_while:
-            # the loop condition is evaluated on the loop-carried state; iteration count unknown
-            it = ("while", self.expr(st.test, events))
-        else:
-            self.bind_target(st.target, elem_val)
-        old_loops = self.loops
-        self.loops = self.loops + (lid,)
-        self.loop_marks.append((len(self.facts), []))
-        ev, term, ret = self.block(st.body)
-        self.loops = old_loops
-        _, jumps = self.loop_marks.pop()
-        if term and not jumps:
-            raise Unsupported(f"unconditional return/raise inside loop at {self.module.path}:{st.lineno}")
-        if _has_exit(ev):
-            raise Unsupported(f"return inside loop at {self.module.path}:{st.lineno}")
-        end_env, end_fields = (None, None) if term else (self.env, self.fields)
+        # a loop-carried tuple (`acc = (loss, credits)` rebuilt every iteration) is carried component by component;
+        # a component that every iteration hands on unchanged is the value it had before the loop
+        nosplit, invariant = set(), set()
+        test_events = []
+        for attempt in range(4):
+            self.env, self.fields, self.exits = dict(env0), dict(f0), list(exits0)
+            split = {n: len(env0[n][1]) for n in carried_n
+                     if n not in nosplit and env0[n][0] == "tuple" and len(env0[n]) == 2 and 2 <= len(env0[n][1]) <= 4}
+            for n in carried_n:
+                if n in split:
+                    self.env[n] = ("tuple", tuple(env0[n][1][i] if (n, i) in invariant else ("mu", lid, f"{n}#{i}")
+                                                  for i in range(split[n])))
+                else:
+                    self.env[n] = ("mu", lid, n)
+            for f in fields:
+                self.fields[f] = ("mu", lid, "self." + f)
+            test_events = []
+            if is_while:
+                # the loop condition is evaluated on the loop-carried state; iteration count unknown
+                it = ("while", self.expr(st.test, test_events))
+            else:
+                self.bind_target(st.target, elem_val)
+            old_loops = self.loops
+            self.loops = self.loops + (lid,)
+            self.loop_marks.append((len(self.facts), []))
+            ev, term, ret = self.block(st.body)
+            self.loops = old_loops
+            _, jumps = self.loop_marks.pop()
+            if term and not jumps:
+                raise Unsupported(f"unconditional return/raise inside loop at {self.module.path}:{st.lineno}")
+            if _has_exit(ev):
+                raise Unsupported(f"return inside loop at {self.module.path}:{st.lineno}")
+            end_env, end_fields = (None, None) if term else (self.env, self.fields)
 
-        def merged(getter, end):
-            v = end
-            for kind, facts, env_j, fields_j in reversed(jumps):
-                vj = getter(env_j, fields_j)
-                cond = facts[0] if len(facts) == 1 else ("and", facts)
-                v = vj if v is None else gate(cond, vj, v)
-            return v
-        carried = {}
-        for n in carried_n:
-            carried[n] = (env0[n], merged(lambda e, f, n=n: e.get(n), None if term else end_env.get(n)))
+            def merged(getter, end):
+                v = end
+                for kind, facts, env_j, fields_j in reversed(jumps):
+                    vj = getter(env_j, fields_j)
+                    cond = facts[0] if len(facts) == 1 else ("and", facts)
+                    v = vj if v is None else gate(cond, vj, v)
+                return v
+            carried = {}
+            retry = False
+            for n in carried_n:
+                nxt = merged(lambda e, f, n=n: e.get(n), None if term else end_env.get(n))
+                if n in split:
+                    if not (isinstance(nxt, tuple) and nxt and nxt[0] == "tuple" and len(nxt) == 2 and len(nxt[1]) == split[n]):
+                        nosplit.add(n)
+                        retry = True
+                        continue
+                    for i in range(split[n]):
+                        if (n, i) in invariant:
+                            if nxt[1][i] != env0[n][1][i]:
+                                invariant.discard((n, i))
+                                nosplit.add(n)
+                                retry = True
+                            continue
+                        if nxt[1][i] == ("mu", lid, f"{n}#{i}"):
+                            invariant.add((n, i))
+                            retry = True
+                        carried[f"{n}#{i}"] = (env0[n][1][i], nxt[1][i])
+                else:
+                    carried[n] = (env0[n], nxt)
+            if not retry:
+                break
+        else:
+            raise Unsupported(f"loop-carried tuple does not stabilise at {self.module.path}:{st.lineno}")
+        events.extend(test_events)
         for f in fields:
             carried["self." + f] = (f0.get(f, ("field0", f)),
                                     merged(lambda e, fl, f=f: fl.get(f, ("field0", f)),
@@ -1414,7 +1499,10 @@ class Summariser:
         self.loop_iters[lid] = it
         events.append(Loop(lid, it, "" if is_while else ast.unparse(st.target), ev, carried, st.lineno, False))
         for n in names:
-            if n in carried_n:
+            if n in carried_n and n in split:
+                self.env[n] = ("tuple", tuple(env0[n][1][i] if (n, i) in invariant else ("eta", lid, f"{n}#{i}")
+                                              for i in range(split[n])))
+            elif n in carried_n:
                 self.env[n] = ("eta", lid, n)
             # names first assigned inside the loop stay bound to their last-iteration value
         for f in fields:
@@ -1633,6 +1721,15 @@ class Summariser:
                             if e.attr in k.class_attrs:
                                 return self._expr(k.class_attrs[e.attr], events)
                 return self.field(self.fname(e.attr))
+            if isinstance(e.value, ast.Name) and self.env.get(e.value.id, ("?",))[0] == "owned":
+                o = self.env[e.value.id]
+                K = self._private_class(o[3])
+                c, m = self.prog.find_method(K, e.attr)
+                if m is not None and any(ast.unparse(d) in ("property", "functools.cached_property", "cached_property")
+                                         for d in m.decorator_list):
+                    return self._inline_owned(K, o[1][:-1], c, m, (), {}, events, e)
+                if m is None:
+                    return self.field(o[1] + e.attr)
             if isinstance(e.value, ast.Attribute) and self.is_self(e.value.value):
                 # self.<owned collaborator>.<attr>: a component of this instance's state
                 K = self._owned_class(self.fname(e.value.attr))
@@ -1978,6 +2075,21 @@ class Summariser:
                 f.value.id == "dict" and "dict" not in self.env and 1 <= len(args) <= 2 and not kwargs:
             lid = self.ids.next()
             return ("comp", "dict", lid, args[0], ("elem", lid), args[1] if len(args) == 2 else ("const", None), ())
+        # method of a local collaborator object of a private class
+        if isinstance(f, ast.Attribute) and isinstance(f.value, ast.Name) and \
+                self.env.get(f.value.id, ("?",))[0] == "owned":
+            o = self.env[f.value.id]
+            K = self._private_class(o[3])
+            c, m = self.prog.find_method(K, f.attr)
+            if m is not None:
+                return self._inline_owned(K, o[1][:-1], c, m, args, dict(kwargs), events, e)
+            if self.prog.find_method(K, f.attr)[1] is None:
+                return self._field_method_call(o[1] + f.attr, "__call__", args, kwargs, events, e)
+        # obj.part.method(...) on a container held by a local collaborator
+        if isinstance(f, ast.Attribute) and isinstance(f.value, ast.Attribute) and isinstance(f.value.value, ast.Name) and \
+                self.env.get(f.value.value.id, ("?",))[0] == "owned" and \
+                self.prog.find_method(self._private_class(self.env[f.value.value.id][3]), f.value.attr)[1] is None:
+            return self._field_method_call(self.env[f.value.value.id][1] + f.value.attr, f.attr, args, kwargs, events, e)
         # method on a local object / arbitrary expression
         if isinstance(f, ast.Attribute):
             recv = self._expr(f.value, events)
@@ -2285,6 +2397,16 @@ class Summariser:
                 all(k in recv[2][1:] for k, _ in kwargs):
             new = dict(kwargs)
             return ("tuple", tuple(new.get(n, v) for n, v in zip(recv[2][1:], recv[1])), recv[2])
+        if fld.startswith("%") and recv[0] != "field0":
+            # a container held by a local collaborator object: the call is a call on that very object
+            res = ("res", self.site(e), "." + meth, (recv,) + tuple(args), kwargs)
+            if meth in MUTATORS:
+                events.append(Mut(recv, meth, tuple(args), kwargs, res, line))
+            else:
+                events.append(Call("method", meth, recv, tuple(args), kwargs, res, line))
+            if meth == "copy" and not args:
+                return ("new", self.site(e), "copy", (recv,))
+            return res
         res = ("res", self.site(e), f"self.{fld}.{meth}", args, kwargs)
         events.append(Call(f"self.{fld}", meth, recv, args, kwargs, res, line))
         if meth == "copy" and not args:
@@ -2295,7 +2417,7 @@ class Summariser:
         """The private collaborator class whose fresh instance the constructor puts into this field, else None."""
         if self.cls is None:
             return None
-        root = self.prog.mro(self.cls)[0].qual if not self.field_prefix else self._owner_key
+        root = self._root_key()
         key = (root, fld)
         owned = self.prog.owned
         if key not in owned:
@@ -2314,37 +2436,49 @@ class Summariser:
         """Inline a method of the collaborator object held in self.<fld>: its `self.x` is this instance's `fld.x`."""
         saved = (self.cls, self.field_prefix, getattr(self, "_owner_key", None))
         if not self.field_prefix:
-            self._owner_key = self.prog.mro(self.cls)[0].qual
+            self._owner_key = self._root_key()
         self.cls, self.field_prefix = K, fld + "."
         try:
             return self.inline(c, m, args, kwargs, events, node)
         finally:
             self.cls, self.field_prefix, self._owner_key = saved
 
-    def _adopt(self, fld, val, events, node):
-        """self.<fld> = _Private(...): the collaborator's state becomes components `fld.*` of this instance."""
-        if not (val[0] == "new" and isinstance(val[2], str) and "." in val[2] and self.cls is not None):
-            return
+    def _private_class(self, val):
+        """The private package class (not an immutable record) a `new` term instantiates, else None."""
+        if not (val[0] == "new" and isinstance(val[2], str) and "." in val[2]):
+            return None
         mod, name = val[2].rsplit(".", 1)
         if not name.startswith("_") or mod not in self.prog.modules or name not in self.prog.modules[mod].classes:
-            return
+            return None
         K = self.prog.modules[mod].classes[name]
         if K.record_fields is not None or self.prog.ext_bases(K):
-            return
+            return None
+        return K
+
+    def _root_key(self):
+        if self.field_prefix:
+            return self._owner_key
+        return self.prog.mro(self.cls)[0].qual if self.cls is not None else f"<{self.module.name}.{self.fn.name}>"
+
+    def _adopt(self, fld, val, events, node):
+        """self.<fld> = _Private(...) (or a local): the collaborator's state becomes components `fld.*`."""
+        K = self._private_class(val)
+        if K is None or (self.cls is None and not fld.startswith("%")):
+            return False
         args = tuple(x for x in val[3] if not (isinstance(x, tuple) and x and x[0] == "kw"))
         kwargs = {x[1]: x[2] for x in val[3] if isinstance(x, tuple) and x and x[0] == "kw"}
-        root = self.prog.mro(self.cls)[0].qual if not self.field_prefix else self._owner_key
+        root = self._root_key()
         c, init = self.prog.find_method(K, "__init__")
         if init is not None:
             self.prog.owned[(root, fld)] = K
             self._inline_owned(K, fld, c, init, args, kwargs, events, node)
-            return
+            return True
         if any(ast.unparse(d).split("(")[0] in ("dataclass", "dataclasses.dataclass") for d in K.node.decorator_list):
             names = [n.target.id for n in K.node.body if isinstance(n, ast.AnnAssign) and isinstance(n.target, ast.Name)]
             defaults = {n.target.id: n.value for n in K.node.body
                         if isinstance(n, ast.AnnAssign) and isinstance(n.target, ast.Name) and n.value is not None}
             if len(args) > len(names) or not set(kwargs) <= set(names):
-                return
+                return False
             vals = dict(zip(names, args))
             vals.update(kwargs)
             for n in names:
@@ -2358,11 +2492,13 @@ class Summariser:
                         fac = next(k.value.id for k in d.keywords if k.arg == "default_factory")
                         vals[n] = ("new", self.site(node) + (n,), fac, ())
                     else:
-                        return
+                        return False
             self.prog.owned[(root, fld)] = K
             for n in names:
                 self.fields[f"{fld}.{n}"] = vals[n]
                 events.append(Store(f"{fld}.{n}", vals[n], node.lineno, None))
+            return True
+        return False
 
     def _call_value(self, recv, args, kwargs, events, e):
         """Call of a local that holds a library function / package class / package function, or a
@@ -2465,6 +2601,9 @@ class Summariser:
             res = ("draw", self.site(e), d, args, kwargs, self.loops)
             events.append(Draw(d, args, kwargs, res, line))
             return res
+        if d == "itertools.repeat" and len(args) == 2 and not kwargs:
+            lid = self.ids.next()           # repeat(v, n): v for each of range(n)
+            return ("comp", "gen", lid, ("fn", "range", (args[1],)), None, args[0], ())
         if d in PURE_EXT:
             return ("fn", PURE_EXT[d], args + tuple(("kw",) + kv for kv in kwargs))
         if d in OPERATOR_EXT and len(args) == 2 and not kwargs:
